@@ -7,6 +7,10 @@ import (
 	"google.golang.org/protobuf/proto"
 )
 
+// TripUpdateTimestamp, when not 0, is written into the optional TripUpdate.timestamp field of every trip update
+// (the moment the predictions were made: nothing the parsers surface, and not the feed's timestamp).
+var TripUpdateTimestamp uint64
+
 // DupEntityIDs makes every trip update and vehicle entity carry the same FeedEntity.id.
 var DupEntityIDs bool
 
@@ -168,6 +172,10 @@ func Entity(i int, e Ent) *gtfsrt.FeedEntity {
 					ScheduledTrack: optStr(Tracks, n.Sched), ActualTrack: optStr(Tracks, n.Actual)})
 			}
 			tu.StopTimeUpdate = append(tu.StopTimeUpdate, stu)
+		}
+		if TripUpdateTimestamp != 0 {
+			ts := TripUpdateTimestamp
+			tu.Timestamp = &ts
 		}
 		fe.TripUpdate = tu
 	case "vp":
